@@ -36,7 +36,8 @@ def tasks_for(plan, history=True, final=True, require=None, schemes=('asc', 'des
     out = []
     for nmin, nmax, k in plan:
         for tree in skeletons(nmin, nmax, history=history, final=final,
-                              require=require if require != 'hd+o' else None):
+                              require=require if require != 'hd+o' else None,
+                              max_hist=2 if require == 'multihist' else 1):
             if require == 'hd+o' and not ("'HD'" in repr(tree) and "'O'" in repr(tree)):
                 continue
             for scheme in schemes:
